@@ -32,10 +32,11 @@ Definition wf_entries (W : ast -> Prop) : list (name * ast) -> Prop :=
    the current frame (Generate-time error, excluded by the property); the OuterIdents of a closure
    literal resolve where the literal stands, do not contain the closure's own name, and together
    with the parameters (and the own name when Recursive is set) cover what the body uses;
-   constants are first-order values *)
+   constants are first-order values or (folded by the optimizer) closures that capture nothing,
+   do not call themselves and whose body is well-formed under the parameters alone *)
 Fixpoint wf (am : list (option name)) (cm : list name) (a : ast) {struct a} : Prop :=
   match a with
-  | AConst v => fo v = true
+  | AConst v => cwf v
   | AIdent x => In (Some x) am \/ In x cm
   | ALet x v b => wf am cm v /\ ~ In (Some x) am /\ wf (am ++ [Some x]) cm b
   | AIf c t e => wf am cm c /\ wf am cm t /\ wf am cm e
@@ -54,6 +55,42 @@ Fixpoint wf (am : list (option name)) (cm : list name) (a : ast) {struct a} : Pr
   | ACall fn args => wf am cm fn /\ wf_list (wf am cm) args
   | AStatic _ args => wf_list (wf am cm) args
   | AMethod recv _ args => wf am cm recv /\ wf_list (wf am cm) args
+  end
+with cwf (v : value) {struct v} : Prop :=
+  match v with
+  | VList l => (fix go (l : list value) : Prop := match l with [] => True | x :: r => cwf x /\ go r end) l
+  | VMap m => (fix go (m : list (str * value)) : Prop :=
+                 match m with [] => True | e :: r => cwf (snd e) /\ go r end) m
+  | VClo ps b cap self => cap = [] /\ self = [] /\ wf (map Some ps) [] b
+  | _ => True
+  end.
+
+(* a decidable, sound (Sem/RelProofs.v: wfb_sound) check of wf; constants must be first-order here *)
+Definition in_am (am : list (option name)) (x : name) : bool :=
+  match index_of oname_eqb (Some x) am with Some _ => true | None => false end.
+
+Fixpoint wfb (am : list (option name)) (cm : list name) (a : ast) {struct a} : bool :=
+  match a with
+  | AConst v => fo v
+  | AIdent x => in_am am x || mem_name x cm
+  | ALet x v b => wfb am cm v && negb (in_am am x) && wfb (am ++ [Some x]) cm b
+  | AIf c t e => wfb am cm c && wfb am cm t && wfb am cm e
+  | ASwitch v cases d =>
+      wfb am cm v && wfb am cm d && forallb (fun c => wfb am cm (fst c) && wfb am cm (snd c)) cases
+  | ATry t c => wfb am cm t && wfb am cm c
+  | AUnary _ x => wfb am cm x
+  | AOp _ x y => wfb am cm x && wfb am cm y
+  | AClosure ps body outer recursive this =>
+      forallb (fun n => in_am am n || mem_name n cm) outer &&
+      match this with [] => true | _ => negb (mem_name this outer) end &&
+      wfb (map Some ps) (outer ++ names_self (self_of recursive this)) body
+  | AList l => forallb (wfb am cm) l
+  | AIndex l i => wfb am cm i && wfb am cm l
+  | AMap m => forallb (fun e => wfb am cm (snd e)) m
+  | AMember m _ => wfb am cm m
+  | ACall fn args => wfb am cm fn && forallb (wfb am cm) args
+  | AStatic _ args => forallb (wfb am cm) args
+  | AMethod recv _ args => wfb am cm recv && forallb (wfb am cm) args
   end.
 
 (* ---------- related values and outcomes ---------- *)
